@@ -38,4 +38,17 @@ F3 == <<CF(1, "f1", "V50"), CF(2, "g1", "V50"),
         CS(1, "AR-PACKAGES"), CN(3, "AR-PACKAGE", "a"), CN(3, "AR-PACKAGE", "b"), CN(3, "AR-PACKAGE", "c"),
         CS(8, "ELEMENTS"), CN(10, "SYSTEM-SIGNAL", "s"), CS(4, "ELEMENTS"), CN(13, "SYSTEM-SIGNAL", "t"),
         CF(1, "f2", "V50"), AF(3, 3), RF(4, 3)>>
+SA(p, an, v) == [A0 EXCEPT !.op = "SetAttr", !.p = p, !.an = an, !.val = v]
+SC(p, c) == [A0 EXCEPT !.op = "SetComment", !.p = p, !.name = c]
+\* F4: copy across versions: model 1 is V50, model 2 is V401
+\*  3 AR-PACKAGES, 4 a, 5 SN, 6 ELEMENTS, 7 SYSTEM-SIGNAL s, 8 SN (NAME-PATTERN attribute: not in V401), 9 SHORT-NAME-FRAGMENTS (not in V401),
+\*  10 I-SIGNAL i, 11 SN, 12 DATA-TYPE-POLICY = TRANSFORMING-I-SIGNAL (value not in V401), 13 SYSTEM-SIGNAL-REF -> /a/s
+\*  14 AR-PACKAGES (model 2), 15 a, 16 SN
+F4 == <<CF(1, "f1", "V50"), CF(2, "g1", "V401"),
+        CS(1, "AR-PACKAGES"), CN(3, "AR-PACKAGE", "a"), CS(4, "ELEMENTS"),
+        CN(6, "SYSTEM-SIGNAL", "s"), CS(7, "SHORT-NAME-FRAGMENTS"),
+        CN(6, "I-SIGNAL", "i"), CS(10, "DATA-TYPE-POLICY"), ST(12, EVal("TRANSFORMING-I-SIGNAL")), CS(10, "SYSTEM-SIGNAL-REF"), SR(13, 7),
+        SA(8, "NAME-PATTERN", SVal("x")), SC(7, "cmt"),
+        CS(2, "AR-PACKAGES"), CN(14, "AR-PACKAGE", "a")>>
+AttrValuesDef == {<<"UUID", SVal("u1")>>, <<"DEST", EVal("SYSTEM-SIGNAL")>>, <<"DEST", EVal("I-SIGNAL")>>, <<"NAME-PATTERN", SVal("x")>>}
 =============================================================================
